@@ -1,6 +1,9 @@
 package main
 
 import (
+	"verifharness/qlog"
+	"runtime"
+	"context"
 	"errors"
 	"fmt"
 	"time"
@@ -606,6 +609,143 @@ func runC12(c *Ctx) {
 		c.DistinctCase(what)
 		c.Case(enc.L(enc.I(13), enc.I(0)))
 	}
+	// subscriptions opened and closed at full speed (real time, no barriers)
+	// while the source publishes without pause: no panic, the publisher still
+	// shuts down, and nothing the library started is left behind
+	{
+		rounds := 1500
+		if !c.Quick() {
+			rounds = 8000
+		}
+		var problems []string
+		what := fmt.Sprintf("%d subscriptions opened and closed at full speed while the source publishes without pause", rounds)
+		c.Now(what)
+		base := sched.LibraryGoroutines()
+		dl := sched.Bubble(c.T, func() {
+			ctx, cancel := context.WithCancel(context.Background())
+			defer cancel()
+			src := kcache.NewVerifSource(ctx, qlog.Silent(), (&Filt{Tag: FNull}).Go())
+			src.MakeReady()
+			ev := kcache.NewEvent(kcache.EventTypeCreate, (&Obj{ID: 1, Kind: KPod, NS: 1, NM: 1, RV: "1", Spec: SPod}).Go())
+			stop := make(chan struct{})
+			senderDone := make(chan struct{})
+			go func() {
+				defer close(senderDone)
+				for {
+					select {
+					case <-stop:
+						return
+					default:
+					}
+					src.Send(ev)
+				}
+			}()
+			for i := 0; i < rounds; i++ {
+				sub, err := src.Subscribe()
+				if err != nil {
+					problems = append(problems, "Subscribe failed on a running source: "+err.Error())
+					break
+				}
+				for k := 0; k < i%32; k++ {
+					runtime.Gosched()
+				}
+				sub.Close()
+				<-sub.Done()
+				if i%100 == 99 {
+					if cl, err := src.Clone(); err == nil {
+						s2, _ := cl.Subscribe()
+						cl.Close()
+						<-cl.Done()
+						if s2 != nil {
+							<-s2.Done()
+						}
+					}
+				}
+			}
+			close(stop)
+			<-senderDone
+			src.Stop()
+			sched.Settle()
+			if !isClosed(src.Done()) {
+				problems = append(problems, "the source publisher is not done after it was stopped")
+			}
+			cancel()
+			sched.Settle()
+		})
+		c.Rep.Evaluations++
+		replay := map[string]interface{}{"scenario": what}
+		if dl != "" {
+			replay["deadlock"] = dl
+			c.Violation("", "hang (bubble deadlock): "+what, replay)
+		} else if left := sched.LibraryGoroutines() - base; left > 0 {
+			replay["goroutines"] = sched.LibraryStacks()
+			c.Violation("", fmt.Sprintf("%d library goroutines are left after the source and everything subscribed to it were shut down: %s", left, what), replay)
+		}
+		for _, p := range problems {
+			c.Violation("", p+" ["+what+"]", replay)
+		}
+		c.DistinctCase("close-stress")
+		c.Case(enc.L(enc.I(13), enc.I(0)))
+	}
+	// one goroutine of the publisher (or of a subscription) descheduled at
+	// its k-th log call, for every k: a subscriber closes, an event is
+	// published, the source stops, and only then the goroutine continues.
+	// Everything must still shut down and nothing may be left behind.
+	for _, cmp := range []string{"publisher", "subscription"} {
+		for k := 1; k <= 9; k++ {
+			what := fmt.Sprintf("the %d-th log call of a %s goroutine is held while a subscriber closes, an event is published and the source stops", k, cmp)
+			c.Now(what)
+			var problems []string
+			wasHeld := false
+			dl := sched.Bubble(c.T, func() {
+				ctx, cancel := context.WithCancel(context.Background())
+				defer cancel()
+				pert := sched.NewPerturb(c.Seed, 0)
+				src := kcache.NewVerifSource(ctx, pert.Log(), (&Filt{Tag: FNull}).Go())
+				src.MakeReady()
+				a, _ := src.Subscribe()
+				b, _ := src.Subscribe()
+				sched.Settle()
+				release, held := pert.HoldNth(cmp, k)
+				defer release()
+				done := make(chan struct{})
+				go func() {
+					defer close(done)
+					a.Close()
+					src.Send(kcache.NewEvent(kcache.EventTypeCreate, (&Obj{ID: 1, Kind: KPod, NS: 1, NM: 1, RV: "1", Spec: SPod}).Go()))
+				}()
+				sched.Settle()
+				src.Stop()
+				sched.Settle()
+				wasHeld = held()
+				release()
+				sched.Settle()
+				if !isClosed(done) {
+					problems = append(problems, "Close of a subscription or Send on the source did not return")
+				}
+				if !isClosed(src.Done()) {
+					problems = append(problems, "the source publisher is not done after it was stopped")
+				}
+				if !isClosed(a.Done()) || !isClosed(b.Done()) {
+					problems = append(problems, "a subscription is not done after its source was stopped")
+				}
+				cancel()
+				sched.Settle()
+			})
+			c.Rep.Evaluations++
+			replay := map[string]interface{}{"scenario": what}
+			if dl != "" {
+				replay["deadlock"] = dl
+				c.Violation("", "goroutines left blocked (bubble deadlock): "+what, replay)
+			}
+			for _, p := range problems {
+				c.Violation("", p+" ["+what+"]", replay)
+			}
+			if wasHeld {
+				c.DistinctCase(fmt.Sprintf("held-%s-%d", cmp, k))
+			}
+		}
+	}
 	reentrantCloses(c, "C12")
-	c.Rep.Rule = "trees as in C11 on a real controller in virtual time under perturbation; shutdown triggers {Close, 3 concurrent Close, context cancel, list error} fired at every step index of a running workload (shutdown-point enumeration), plus Close swept over time while a list is slow, the watch connect hangs until cancelled or always fails, and after the server dropped the watch stream (after the reconnect, and inside the retry delay), while a list outlasts the refresh period (tick pending), and Close / context cancel while the controller is applying a list (initial and relist; slow filter) (mid-relist / mid-reconnect). Oracles: Close() returns and Done() closes at once in virtual time (synctest's deadlock detection is the oracle for 'does not hang'); after the root is done the inventory of goroutines with library frames is back to its value before the scenario; every API call {Subscribe*, Clone*, Refilter, Cache().List/Get, Close} on every stopped node returns a result or ErrNotRunning instead of blocking. Plus a monitor closed from inside each of its own callbacks (re-entrant Close). In the Close sweep seven goroutines call Cache().List()/Get() and Subscribe()/Clone()/NewMonitor() in a loop across the shutdown: none stays blocked, and every subscription / clone they obtained ends up shut down. Non-trivial = every scenario."
+	c.Rep.Rule = "trees as in C11 on a real controller in virtual time under perturbation; shutdown triggers {Close, 3 concurrent Close, context cancel, list error} fired at every step index of a running workload (shutdown-point enumeration), plus Close swept over time while a list is slow, the watch connect hangs until cancelled or always fails, and after the server dropped the watch stream (after the reconnect, and inside the retry delay), while a list outlasts the refresh period (tick pending), and Close / context cancel while the controller is applying a list (initial and relist; slow filter) (mid-relist / mid-reconnect). Oracles: Close() returns and Done() closes at once in virtual time (synctest's deadlock detection is the oracle for 'does not hang'); after the root is done the inventory of goroutines with library frames is back to its value before the scenario; every API call {Subscribe*, Clone*, Refilter, Cache().List/Get, Close} on every stopped node returns a result or ErrNotRunning instead of blocking. Plus a monitor closed from inside each of its own callbacks (re-entrant Close). Plus one publisher / subscription goroutine descheduled at its k-th log call (k = 1..9, no log text looked at) while a subscriber closes, an event is published and the source stops. Plus a real-time stress: 1500 (8000) subscriptions opened and closed at full speed while a hand-driven source publishes without pause (no panic, publisher done, no goroutine left). In the Close sweep seven goroutines call Cache().List()/Get() and Subscribe()/Clone()/NewMonitor() in a loop across the shutdown: none stays blocked, and every subscription / clone they obtained ends up shut down. Non-trivial = every scenario."
 }
